@@ -22,7 +22,7 @@ def Forest.withRoots (g : Forest) (rs : List HTree) : Forest := { g with roots :
 theorem Forest.withRoots_self (g : Forest) : g.withRoots g.roots = g := rfl
 
 /-- The state just after `new_node(value.clone())` inside the edge replay. -/
-structure Work (g : Forest) (R : List HTree) (fs : List Frame) (c : Nat) (vc : Value)
+structure Work (g : Forest) (R : List HTree) (fs : List CFrame) (c : Nat) (vc : Value)
     (K : List HTree) (n : Nat) (v : Value) : Prop where
   roots : g.roots = R ++ [plug fs (.node c vc K), .node n v []]
   nodup : (handlesList R ++ (frameHandles fs ++ c :: handlesList K)).Nodup
@@ -30,7 +30,7 @@ structure Work (g : Forest) (R : List HTree) (fs : List Frame) (c : Nat) (vc : V
 
 namespace Work
 
-variable {g : Forest} {R : List HTree} {fs : List Frame} {c : Nat} {vc : Value} {K : List HTree}
+variable {g : Forest} {R : List HTree} {fs : List CFrame} {c : Nat} {vc : Value} {K : List HTree}
   {n : Nat} {v : Value}
 
 theorem cR (w : Work g R fs c vc K n v) : c ∉ handlesList R := by
@@ -170,7 +170,7 @@ end Work
 
 /-! #### placing the new node -/
 
-theorem placeLast_work (g : Forest) (R : List HTree) (fs : List Frame) (c : Nat) (vc : Value)
+theorem placeLast_work (g : Forest) (R : List HTree) (fs : List CFrame) (c : Nat) (vc : Value)
     (K : List HTree) (t : HTree) (cR : c ∉ handlesList R) (cF : c ∉ frameHandles fs) :
     (g.withRoots (R ++ [plug fs (.node c vc K)])).placeLast c t =
       g.withRoots (R ++ [plug fs (.node c vc (K ++ [t]))]) := by
@@ -179,7 +179,7 @@ theorem placeLast_work (g : Forest) (R : List HTree) (fs : List Frame) (c : Nat)
   rw [map_mapAt_of_not_mem c _ R cR, mapAt_plug c _ fs _ cF, mapAt_self]
   rfl
 
-theorem placeFirst_work (g : Forest) (R : List HTree) (fs : List Frame) (c : Nat) (vc : Value)
+theorem placeFirst_work (g : Forest) (R : List HTree) (fs : List CFrame) (c : Nat) (vc : Value)
     (K : List HTree) (t : HTree) (cR : c ∉ handlesList R) (cF : c ∉ frameHandles fs) :
     (g.withRoots (R ++ [plug fs (.node c vc K)])).placeFirst c t =
       g.withRoots (R ++ [plug fs (.node c vc (t :: K))]) := by
@@ -189,7 +189,7 @@ theorem placeFirst_work (g : Forest) (R : List HTree) (fs : List Frame) (c : Nat
   rfl
 
 /-- Placing after the last child `x` of the focus. -/
-theorem placeAfter_work (g : Forest) (R : List HTree) (fs : List Frame) (c : Nat) (vc : Value)
+theorem placeAfter_work (g : Forest) (R : List HTree) (fs : List CFrame) (c : Nat) (vc : Value)
     (K' : List HTree) (x t : HTree) (rR : x.handle ∉ handlesList R) (rF : x.handle ∉ frameHandles fs)
     (rc : x.handle ≠ c) (rK : x.handle ∉ handlesList K') :
     (g.withRoots (R ++ [plug fs (.node c vc (K' ++ [x]))])).placeAfter x.handle t =
